@@ -31,6 +31,9 @@ enum Prefixing {
     /// each namespace is bound to the prefix that spells the OTHER namespace's generated
     /// abbreviation (alpha -> `alp`, beta -> `bet`): xmlns:bet="…/alpha" xmlns:alp="…/beta"
     SwappedAbbreviations,
+    /// the root binds prefix `p` to A; the referring component alone rebinds `p` to B (xmlns:p on the
+    /// component), and a component declared after it uses `p` again (meaning A)
+    ShadowedOnComponent,
 }
 
 fn build(kind: Kind, target_b: bool, prefixing: Prefixing, user_first: bool, decoys: bool, same_name_chain: bool, elem_first: bool, idiom: bool) -> SchemaSet {
@@ -38,6 +41,7 @@ fn build(kind: Kind, target_b: bool, prefixing: Prefixing, user_first: bool, dec
     let (pa, pb): (Vec<(String, String)>, Vec<(String, String)>) = match prefixing {
         Prefixing::TnsClash => (vec![("tns".into(), NS_A.into()), ("b".into(), NS_B.into())], vec![("tns".into(), NS_B.into())]),
         Prefixing::SwappedAbbreviations => (vec![("bet".into(), NS_A.into()), ("alp".into(), NS_B.into())], vec![("alp".into(), NS_B.into())]),
+        Prefixing::ShadowedOnComponent => (vec![("p".into(), NS_A.into()), ("a".into(), NS_A.into()), ("b".into(), NS_B.into())], vec![("b".into(), NS_B.into())]),
         _ => (vec![("a".into(), NS_A.into()), ("b".into(), NS_B.into())], vec![("b".into(), NS_B.into())]),
     };
     s.files[0].prefixes = pa;
@@ -98,6 +102,12 @@ fn build(kind: Kind, target_b: bool, prefixing: Prefixing, user_first: bool, dec
         Kind::Base => Comp::Complex(ComplexType { name: "User".into(), base: Some(q), seq: Some(Seq::of(vec![el("UserMark", TypeRef::b("string"))])), ..Default::default() }),
         Kind::Ref => complex("User", vec![Particle::Ref(ElemRef { target: q, min: 1, max: Max::N(1) }), el("UserMark", TypeRef::b("string"))]),
     };
+    let mut user = user;
+    if prefixing == Prefixing::ShadowedOnComponent {
+        if let Comp::Complex(c) = &mut user {
+            c.xmlns = vec![("p".into(), NS_B.into())];
+        }
+    }
     let mut a_comps = vec![part_a];
     if decoys {
         a_comps.push(decoy);
@@ -111,6 +121,11 @@ fn build(kind: Kind, target_b: bool, prefixing: Prefixing, user_first: bool, dec
         a_comps.extend(carriers);
         a_comps.push(user);
     }
+    if prefixing == Prefixing::ShadowedOnComponent {
+        // after the component that rebinds `p`: `p` denotes A again (printed p:Thing through the root's binding)
+        a_comps.push(complex("After", vec![el("AfterUses", TypeRef::n(NS_A, "Thing")), el("AfterUsesPart", TypeRef::n(NS_A, "Part"))]));
+        a_comps.push(Comp::Complex(ComplexType { name: "AfterDerived".into(), base: Some(QName::new(NS_A, "Thing")), seq: Some(Seq::of(vec![el("AfterOwn", TypeRef::b("string"))])), ..Default::default() }));
+    }
     s.files[0].comps = a_comps;
     s
 }
@@ -119,7 +134,7 @@ fn xsd_states() -> Vec<(State, Vec<(&'static str, String)>)> {
     let mut out = vec![];
     for kind in [Kind::Type, Kind::Base, Kind::Ref] {
         for target_b in [false, true] {
-            for prefixing in [Prefixing::Own, Prefixing::TnsClash, Prefixing::Default, Prefixing::DefaultIsImported, Prefixing::SwappedAbbreviations] {
+            for prefixing in [Prefixing::Own, Prefixing::TnsClash, Prefixing::Default, Prefixing::DefaultIsImported, Prefixing::SwappedAbbreviations, Prefixing::ShadowedOnComponent] {
                 for user_first in [false, true] {
                     for (decoys, chain, elem_first, idiom) in [(false, false, false, false), (true, false, false, false), (false, true, false, false), (true, true, false, false), (false, false, true, false), (true, true, true, false), (false, false, true, true), (false, false, false, true), (true, true, true, true)] {
                         let set = build(kind, target_b, prefixing, user_first, decoys, chain, elem_first, idiom);
@@ -138,6 +153,32 @@ fn xsd_states() -> Vec<(State, Vec<(&'static str, String)>)> {
                     }
                 }
             }
+        }
+    }
+    out
+}
+
+/// The imported file imports the start file back and refers to A's `Thing` (base= and ref=) while
+/// it declares a `Thing` of its own FURTHER DOWN: the reference must not be bound to the local one.
+fn cyclic_import_states() -> Vec<(State, Vec<(&'static str, String)>)> {
+    let mut out = vec![];
+    for kind in [Kind::Base, Kind::Ref] {
+        for own_thing_first in [false, true] {
+            let mut s = build(Kind::Type, false, Prefixing::Own, false, false, false, false, false);
+            s.files[1].prefixes.push(("a".into(), NS_A.into()));
+            s.files[1].imports.push(Import { ns: NS_A.into(), loc: Some("a.xsd".into()) });
+            let referrer = match kind {
+                Kind::Base => Comp::Complex(ComplexType { name: "InBUsesA".into(), base: Some(QName::new(NS_A, "Thing")), seq: Some(Seq::of(vec![el("OwnInB", TypeRef::b("string"))])), ..Default::default() }),
+                _ => complex("InBUsesA", vec![Particle::Ref(ElemRef { target: QName::new(NS_A, "Thing"), min: 0, max: Max::N(1) }), el("OwnInB", TypeRef::b("string"))]),
+            };
+            if own_thing_first {
+                s.files[1].comps.push(referrer);
+            } else {
+                s.files[1].comps.insert(0, referrer);
+            }
+            let label = format!("{kind:?} reference from the imported file back to A's Thing (files import each other), B's own Thing declared {}", if own_thing_first { "before the referrer" } else { "after the referrer" });
+            let ctx = vec![("reference.kind", format!("{kind:?}").to_lowercase()), ("reference.target", "importing-namespace".to_string()), ("layout.cyclic_import", "true".to_string()), ("reference.order", if own_thing_first { "own-thing-first".into() } else { "referrer-first".to_string() })];
+            out.push((State { label, depth: 2, set: s }, ctx));
         }
     }
     out
@@ -233,6 +274,7 @@ pub fn check(tier: &str) -> i32 {
     let mut agg = Agg::new();
     let mut xs = xsd_states();
     xs.extend(two_referrer_states());
+    xs.extend(cyclic_import_states());
     let states: Vec<State> = xs.iter().map(|(s, _)| State { label: s.label.clone(), depth: s.depth, set: s.set.clone() }).collect();
     let ran = run_states(&states);
     let mut conformant = 0u64;
@@ -249,7 +291,7 @@ pub fn check(tier: &str) -> i32 {
         }
         let ex = r.extract.as_ref().unwrap().as_ref().unwrap();
         let model = RefModel::build(&st.set);
-        let only = |c: &ExpComp| c.name == "User" || c.name == "UsesOwnB" || c.name == "BaseUser";
+        let only = |c: &ExpComp| c.name == "User" || c.name == "UsesOwnB" || c.name == "BaseUser" || c.name == "After" || c.name == "AfterDerived" || c.name == "InBUsesA";
         let vs = compare_api(ex, &model, &ApiCheck { property: "C09", scope: "name-reuse", depth: 1, member_namespaces: true }, Some(&only));
         if vs.is_empty() {
             conformant += 1;
@@ -307,7 +349,7 @@ pub fn check(tier: &str) -> i32 {
     rep.set("traces_validated_against_impl", json!(n));
     rep.set("states_fully_conformant", json!(conformant));
     rep.set("exhaustive", json!(true));
-    rep.set("bound", json!("complete product: reference kind {type=, base=, ref=} x target namespace {own, imported} x prefixing {own prefixes, the prefix tns bound to different URIs in the two files, default namespace, default namespace = imported namespace, each prefix spelling the other namespace's generated abbreviation} x declaration order {before, after use} x decoys {absent, a local element and an attribute named Thing} x {type Thing before element Thing, element first} x {element Thing of an anonymous type, element Thing of type Thing} x {A's Thing carriers independent, built on B's Thing carriers (same local name along the chain)}; two referrers of different kinds (ref= and base=) to one name in all 24 declaration orders x 2 element forms; WSDL: part element= {WSDL's, imported namespace} x parts {explicit, absent} with message and part named Thing; the imported file also refers to its own Thing through its own prefix"));
+    rep.set("bound", json!("complete product: reference kind {type=, base=, ref=} x target namespace {own, imported} x prefixing {own prefixes, the prefix tns bound to different URIs in the two files, default namespace, default namespace = imported namespace, each prefix spelling the other namespace's generated abbreviation, a prefix of the root rebound on the referring component only and used again after it} x declaration order {before, after use} x decoys {absent, a local element and an attribute named Thing} x {type Thing before element Thing, element first} x {element Thing of an anonymous type, element Thing of type Thing} x {A's Thing carriers independent, built on B's Thing carriers (same local name along the chain)}; two referrers of different kinds (ref= and base=) to one name in all 24 declaration orders x 2 element forms; WSDL: part element= {WSDL's, imported namespace} x parts {explicit, absent} with message and part named Thing; the imported file also refers to its own Thing through its own prefix"));
     let _ = tier;
     rep.assume("a carrier is identified by the namespace its struct declares and its unique marker member");
     rep.finish()
